@@ -343,11 +343,14 @@ theorem Inv3.step {s : AState} (i : Inv3 s) (j : Inv1 s) (op : Op) (hop : OpOK s
     · split
       · exact i
       · apply Inv3.setW; apply Inv3.handleSpend (Inv3.setW i _) (Inv1.setW j _)
-  | spendT pos t h =>
+  | consumeSpend pos =>
     simp only [Pool.C08.step]
     split
     · exact i
-    · apply Inv3.setW; apply Inv3.handleSpend (Inv3.setW i _) (Inv1.setW j _)
+    · exact Inv3.setW i _
+  | spendH t h =>
+    simp only [Pool.C08.step]
+    apply Inv3.setW; exact Inv3.handleSpend i j _ _
   | spendDirect k h =>
     simp only [Pool.C08.step]
     split
